@@ -23,3 +23,4 @@ run C12_binpatch_load_test.go lib/binpatch 7fd31a3
 run c13/merge_clearsign_flush_error_test.go lib/pgptools 286f563
 run c02/powershell_eol_before_block_test.go lib/authenticode 718a44a
 run c11/dmg_negative_signature_length_test.go lib/fruit/dmg 68354ee
+run c11/macho_negative_padding_test.go lib/fruit/machos 24d6965
